@@ -99,12 +99,15 @@ impl Check for C14 {
         for _ in 0..n {
             t = advance(&mut r, t);
             if r.below(10) < zone_rate {
-                let tz = match r.below(8) {
-                    0 => "NOPE".to_string(),
-                    1 | 2 | 3 => { let (z, o) = g.zone(&mut r); cur_off = o; z }
-                    _ => { let (z, o) = r.pick(&g.zones).clone(); cur_off = o; z }
+                let (tz, off) = match r.below(8) {
+                    0 => ("NOPE".to_string(), None),
+                    1 | 2 | 3 => { let (z, o) = g.zone(&mut r); cur_off = o; (z, Some(o)) }
+                    _ => { let (z, o) = r.pick(&g.zones).clone(); cur_off = o; (z, Some(o)) }
                 };
-                events.push(Event { actor: ADMIN, op: Op::Admin(AdminOp::SetTimezone { tz }), clock: ClockScript::Frozen { t } });
+                events.push(Event { actor: ADMIN, op: Op::Admin(AdminOp::SetTimezone { tz: tz.clone() }), clock: ClockScript::Frozen { t } });
+                // now and then the SAME offset right away under its other spelling (CET then GMT+1): the configured
+                // zone is the one named last
+                if let Some(o) = off { if r.chance(1, 3) { if let Some(z2) = g.same_offset_other_spelling(&mut r, &tz, o) { events.push(Event { actor: ADMIN, op: Op::Admin(AdminOp::SetTimezone { tz: z2 }), clock: ClockScript::Frozen { t } }); } } }
                 continue;
             }
             let use_session = session && r.chance(2, 3);
